@@ -231,6 +231,9 @@ class Gen:
             if names and rng.random() < 0.5:
                 proj[nm]["includes"].append(rng.choice(names))
             self.library(proj, nm, rng.randrange(1, 5))
+            # every included file offers a service of the SAME name: a root service may extend inc.Base, and switching it to
+            # another include's Base is a change of parent
+            proj[nm]["services"].append(("Base", "", [{"name": "ping", "oneway": False, "ret": None, "args": [], "excs": None}]))
             names.append(nm)
         main = new_file()
         proj["main"] = main
@@ -265,6 +268,8 @@ class Gen:
             ext = ""
             if main["services"] and rng.random() < 0.5:
                 ext = rng.choice(main["services"])[0]
+            elif main["includes"] and rng.random() < 0.5:
+                ext = rng.choice(main["includes"]) + ".Base"
             main["services"].append((self.fresh("Sv"), ext, methods))
         for _ in range(rng.randrange(0, 3)):
             pieces = []
@@ -679,6 +684,13 @@ class Editor:
             if not self.free(("service", name, "#extends")):
                 continue
             others = [n for n, _, _ in m["services"][:idx] if n != ext]
+            if ext and "." in ext:
+                # the parent lives in an include: another include's service of the same name is another parent
+                alts = [i + ".Base" for i in m["includes"] if i + ".Base" != ext]
+                newext = self.rng.choice(alts + others + [""])
+                m["services"][idx] = (name, newext, ms)
+                return {"name": "extends_changed_include", "breaking": True, "claims": [("service", name, "#extends")],
+                        "errors": [r"^service %s: extends changed: '%s' -> '%s'$" % (esc(name), esc(ext), esc(newext))]}
             if ext:
                 newext = self.rng.choice(others + [""])
                 m["services"][idx] = (name, newext, ms)
@@ -1009,6 +1021,43 @@ COMPATIBLE_EDITS = [
 ]
 
 
+def _default_fits(proj, fname, t, d):
+    """does the literal text d conform to type t (validation checks defaults against their types)"""
+    nf = resolve(proj, fname, t)
+    if nf is None:
+        return False
+    if d.startswith('"'):
+        return nf == ("b", "string")
+    if d in ("true", "false"):
+        return nf == ("b", "bool")
+    if d.startswith("["):
+        return nf[0] == "list" and nf[1][0] == "b" and nf[1][1] in ("i32", "i64", "i16")
+    if "." in d:
+        return nf == ("b", "double")
+    try:
+        v = int(d)
+    except ValueError:
+        return False
+    if nf[0] != "b":
+        return False
+    if nf[1] == "byte":
+        return -128 <= v <= 127
+    return nf[1] in ("i16", "i32", "i64", "double")
+
+
+def sanitize_defaults(proj):
+    """a retyped field (directly or through a changed typedef) must not keep a default of the old type"""
+    for fname, fa in proj.items():
+        lists = [fs for kind in KINDS for _, fs in fa[kind]]
+        for _, _, ms in fa["services"]:
+            for me in ms:
+                lists.append(me["args"])
+        for fs in lists:
+            for f in fs:
+                if f.get("default") is not None and not _default_fits(proj, fname, f["type"], f["default"]):
+                    f["default"] = None
+
+
 def apply_edits(rng, gen, old, plan):
     """plan: list of (name, fn). Returns (new project, list of applied edit records)."""
     new = copy.deepcopy(old)
@@ -1029,4 +1078,5 @@ def apply_edits(rng, gen, old, plan):
         claimed.extend(rec["claims"])
         rec["claims"] = [list(c) for c in rec["claims"]]
         applied.append(rec)
+    sanitize_defaults(new)
     return new, applied
